@@ -2,6 +2,7 @@ import Neutrino.Props.C03
 import Neutrino.Props.C03Verify
 import Neutrino.Props.C03Sanity
 import Neutrino.Props.C03Scan
+import Neutrino.Props.C03Resume
 open Neutrino.CFHeaders
 #print axioms C03_source_facts
 #print axioms C03_not_ahead
@@ -47,3 +48,10 @@ open Neutrino.VerifyFilter in
 #print axioms C03_truth_verifies_of_complete
 open Neutrino.VerifyFilter in
 #print axioms C03_verify_source_facts
+#print axioms C03_checkpointed_phase_resume
+#print axioms C03_hardcoded_height_in_reach_runs_phase
+#print axioms C03_checkpointed_phase_lag_counterexample
+#print axioms C03_hard_scan_from_zero
+#print axioms C03_hard_scan_from_tip_counterexample
+#print axioms C03_checkpoints_resume
+#print axioms C03_resume_source_facts
